@@ -12,6 +12,8 @@ from __future__ import annotations
 
 import collections
 import json
+import os
+import zlib
 
 from vf import explore
 from vf.props import c05_core as core
@@ -35,7 +37,11 @@ _PRIORITY = ["not-equivalent", "after-fails", "invalid-model", "ill-formed"]
 
 
 def _rules():
-    return core.discover()
+    rules = core.discover()
+    only = os.environ.get("C05_ONLY")     # development aid: restrict to rules whose id contains this substring
+    if only:
+        rules = [r for r in rules if only in r["id"]]
+    return rules
 
 
 def _driver_for(tier, rules):
@@ -48,15 +54,16 @@ def _driver_for(tier, rules):
             return {"rule": r["id"], "path": r["path"], "sig": r["sig"], "space": None, "p": {}}
         p = {}
         ndev = 0
+        cap = sp.max_dev.get(tier)
         for d in sp.dims(tier, r):
             vals = d.values(tier)
             if d.cost == 0:
                 p[d.name] = ch.all(f"{sp.name}.{d.name}", vals)
+            elif cap is not None and ndev >= cap:
+                p[d.name] = vals[0]      # the space's own deviation bound is exhausted: no choice point
             else:
                 p[d.name] = ch.choose(f"{sp.name}.{d.name}", vals)
                 ndev += p[d.name] != vals[0]
-        if sp.max_dev.get(tier) is not None and ndev > sp.max_dev[tier]:
-            raise explore.Prune()
         if sp.prune is not None and sp.prune(p, r):
             raise explore.Prune()
         return {"rule": r["id"], "path": r["path"], "sig": r["sig"], "space": sp.name, "p": p}
@@ -118,7 +125,7 @@ def _eval(item_rule, path, spname, p, sig=""):
     kinds = [k for k, _ in res["problems"]]
     primary = next((k for k in _PRIORITY if k in kinds), None)
     show = None
-    if res.get("after") is not None and (primary or len(_MEMO) % 97 == 0):
+    if res.get("after") is not None and (primary or zlib.crc32(key[1].encode()) % 97 == 0):
         show = "BEFORE " + core.render(model, 900) + "\nAFTER " + core.render(res["after"], 900)
     res.pop("after", None)
     out = (primary, res, show)
